@@ -1,16 +1,17 @@
 #!/bin/sh
-# usage: selftest/benign_all.sh [jobs]  - the whole behaviour-preserving corpus (selftest/benign/<id>/k.patch), each patch in its own
+# usage: selftest/benign_all.sh [jobs] [tier]  - the whole behaviour-preserving corpus (selftest/benign/<id>/k.patch), each patch in its own
 # scratch worktree of /repo (under /tmp, removed afterwards) with the property's quick check run against that tree (VERIF_REPO).
 # Expected: exit 0 (or 2 = no verdict, listed) for every patch; exit 1 is a false alarm.  /repo and /verif/evidence are not touched.
 J=${1:-6}
+TIER=${2:-quick}
 cd /verif
 ls selftest/benign/C*/*.patch | xargs -P $J -I{} sh -c '
-F={}; ID=$(basename $(dirname $F)); K=$(basename $F .patch)
+F={}; TIER='$TIER'; ID=$(basename $(dirname $F)); K=$(basename $F .patch)
 D=/tmp/bn-$ID-$K
 git -C /repo worktree add -q --detach $D HEAD 2>/dev/null || { echo "$F: worktree failed"; exit 0; }
 if git -C $D apply /verif/$F 2>/dev/null; then
   O=$(mktemp -d)
-  VERIF_REPO=$D VERIF_OUT=$O /verif/check $ID --tier quick > $O/log 2>&1; RC=$?
+  VERIF_REPO=$D VERIF_OUT=$O /verif/check $ID --tier $TIER > $O/log 2>&1; RC=$?
   echo "$F: exit=$RC $(grep -E "^(violation|INCONCLUSIVE)" $O/log | head -1 | cut -c1-160)"
   rm -rf $O
 else
